@@ -71,7 +71,50 @@ def dag_shapes(tier):
                 op["lc"] = "singleton"
         abstract.append(sh)
         ops.append(o)
+    for sh in fallible_source_variants(tier):
+        o = G.ops_of(dict(sh, nodes=[dict(nd, variant=None) for nd in sh["nodes"]]))
+        for nd, op in zip(sh["nodes"], o):
+            if nd.get("variant") == "fallible":
+                op["c"] = "DGF_" + G.type_name(sh["nodes"].index(nd), nd["kind"]) + "__0"
+        abstract.append(sh)
+        ops.append(o)
+    for sh in twice_variants(tier):
+        o = G.ops_of(sh)
+        abstract.append(dict(sh, twice=True))
+        ops.append(o[:-1] + [{"k": "nest", "prefix": "/x", "bp": {"ops": [o[-1]]}}, {"k": "nest", "prefix": "/y", "bp": {"ops": [o[-1]]}}])
     return abstract, ops
+
+
+def _stalemate_candidates(tier):
+    """Request-scoped shapes with >= 2 sources and <= 4 values, ascending order."""
+    out = []
+    for sh in G.shapes(tier):
+        if sh["order"] != "a" or any(nd["lc"] != "R" for nd in sh["nodes"]):
+            continue
+        n = len(sh["nodes"])
+        if sum(1 for nd in sh["nodes"] if not nd["ins"]) < 2 or n > 4 or any(nd["kind"] == "K" for nd in sh["nodes"]):
+            continue
+        out.append(sh)
+    return out
+
+
+def fallible_source_variants(tier):
+    """The same shapes with every source built by a FALLIBLE constructor (`DGF_*`, gen_app_extra_dagf.py; no error handler
+    registered: the framework default applies): the values the borrow checker reasons about are then derived components
+    (the Ok arm of the match), not user-registered ones."""
+    return [dict(sh, nodes=[dict(nd, variant="fallible" if not nd["ins"] else None) for nd in sh["nodes"]]) for sh in _stalemate_candidates(tier)]
+
+
+def twice_variants(tier):
+    """The same constructors feeding the same handler on TWO routes (nested under /x and /y): every diagnostic about the
+    dependency graph is produced once per call graph, with identical text. Only shapes outside the must-accept class
+    (the ones that can produce diagnostics)."""
+    out = []
+    for sh in _stalemate_candidates(tier):
+        spec = {"id": "x", "family": "dag", "bp": {"ops": G.ops_of(sh)}}
+        if M.classify_spec(M.Analysis(spec))[0] != "must_accept":
+            out.append(sh)
+    return out
 
 
 def singleton_source_variants(tier):
@@ -104,10 +147,10 @@ def compact_shape(sh):
     for i, nd in enumerate(sh["nodes"]):
         ins = ",".join(("&" if m == "r" else "") + G.type_name(j, sh["nodes"][j]["kind"]) for j, m in
                        (sorted(nd["ins"]) if sh["order"] == "a" else sorted(nd["ins"])[::-1]))
-        attr = ("+cin" if nd["kind"] == "C" else "") + ("+transient" if nd["lc"] == "T" else "") + ("+singleton" if nd["lc"] == "S" else "")
+        attr = ("+cin" if nd["kind"] == "C" else "") + ("+transient" if nd["lc"] == "T" else "") + ("+singleton" if nd["lc"] == "S" else "") + ("+fallible" if nd.get("variant") == "fallible" else "")
         parts.append(f"{G.type_name(i, nd['kind'])}{attr}({ins})")
     h = ",".join(("&" if m == "r" else "") + G.type_name(j, sh["nodes"][j]["kind"]) for j, m in sh["h"])
-    return "; ".join(parts) + f"; handler({h})"
+    return "; ".join(parts) + f"; handler({h})" + (" on two routes" if sh.get("twice") else "")
 
 
 def observe(tier):
